@@ -296,9 +296,22 @@ namespace c13
             //      must already be the view.  If it is not, no launch can reproduce host evaluation: report and skip the launches.
             {
                 const auto extracted = fn::apply(f, kernel_operands);
+                // a mis-composed view may throw std::out_of_range while it is read (std::vector::at / std::array::at)
+                vh::Out xout;
+                bool same = false, threw = false;
+                try {
+                    vh::emit_array(xout, extracted);
+                    same = arrays_equal(host, extracted);
+                } catch (const std::exception&) {
+                    threw = true;
+                }
                 out.tok("X");
-                vh::emit_array(out, extracted);
-                if (!arrays_equal(host, extracted)) {
+                if (threw) {
+                    out.tok("T");
+                } else {
+                    out.buf += xout.buf;
+                }
+                if (!same) {
                     out.tok("NL 0 0 -");
                     return;
                 }
